@@ -2,15 +2,624 @@ import NeumannModel.Blob.Conc
 /- Helper lemmas for the blob-store properties (C19). Core Lean only. -/
 namespace Neumann.Blob
 
+/-! ### association lists -/
+section assoc
+variable {α β : Type} [DecidableEq α]
+
+def keys (l : List (α × β)) : List α := l.map (·.1)
+
+@[simp] theorem keys_nil : keys ([] : List (α × β)) = [] := rfl
+@[simp] theorem keys_cons (p : α × β) (l : List (α × β)) : keys (p :: l) = p.1 :: keys l := rfl
+@[simp] theorem find_nil (k : α) : find k ([] : List (α × β)) = none := rfl
+theorem find_cons (k : α) (p : α × β) (l : List (α × β)) :
+    find k (p :: l) = if p.1 = k then some p.2 else find k l := rfl
+
+theorem find_none_iff (k : α) (l : List (α × β)) : find k l = none ↔ k ∉ keys l := by
+  induction l with
+  | nil => simp
+  | cons p l ih =>
+    rw [find_cons]
+    by_cases hp : p.1 = k
+    · simp [hp]
+    · simp only [hp, if_false, ih, keys_cons, List.mem_cons, not_or]
+      exact ⟨fun h => ⟨fun e => hp e.symm, h⟩, fun h => h.2⟩
+
+theorem find_some_mem {k : α} {v : β} {l : List (α × β)} (h : find k l = some v) : (k, v) ∈ l := by
+  induction l with
+  | nil => simp at h
+  | cons p l ih =>
+    rw [find_cons] at h
+    by_cases hp : p.1 = k
+    · simp only [hp, if_true, Option.some.injEq] at h
+      have : p = (k, v) := by cases p; simp_all
+      simp [this]
+    · simp only [hp, if_false] at h
+      exact List.mem_cons_of_mem _ (ih h)
+
+theorem find_isSome_iff (k : α) (l : List (α × β)) : (find k l).isSome ↔ k ∈ keys l := by
+  have := find_none_iff k l
+  cases hf : find k l with
+  | none => simp [hf] at this; simp [this]
+  | some v =>
+    simp only [Option.isSome_some, true_iff]
+    have := find_some_mem hf
+    exact List.mem_map.mpr ⟨(k, v), this, rfl⟩
+
+theorem mem_find {k : α} {v : β} {l : List (α × β)} (hn : (keys l).Nodup) (h : (k, v) ∈ l) :
+    find k l = some v := by
+  induction l with
+  | nil => simp at h
+  | cons p l ih =>
+    rw [find_cons]
+    simp only [keys_cons, List.nodup_cons] at hn
+    rcases List.mem_cons.mp h with h | h
+    · subst h; simp
+    · have hk : k ∈ keys l := List.mem_map.mpr ⟨(k, v), h, rfl⟩
+      have hp : ¬ p.1 = k := fun e => hn.1 (e ▸ hk)
+      simp only [hp, if_false]
+      exact ih hn.2 h
+
+theorem find_append (k : α) (l l' : List (α × β)) :
+    find k (l ++ l') = match find k l with | some v => some v | none => find k l' := by
+  induction l with
+  | nil => simp
+  | cons p l ih =>
+    rw [List.cons_append, find_cons, find_cons]
+    by_cases hp : p.1 = k <;> simp [hp, ih]
+
+theorem keys_modify (k : α) (f : β → β) (l : List (α × β)) : keys (modify k f l) = keys l := by
+  induction l with
+  | nil => rfl
+  | cons p l ih =>
+    simp only [modify, List.map_cons, keys_cons] at *
+    rw [ih]; by_cases hp : p.1 = k <;> simp [hp]
+
+theorem find_modify (k k' : α) (f : β → β) (l : List (α × β)) :
+    find k' (modify k f l) = if k' = k then (find k' l).map f else find k' l := by
+  induction l with
+  | nil => simp [modify]
+  | cons p l ih =>
+    simp only [modify, List.map_cons] at *
+    rw [find_cons, find_cons, ih]
+    by_cases hp : p.1 = k
+    · by_cases hk : k' = k
+      · subst hk; simp [hp]
+      · have : ¬ p.1 = k' := fun e => hk (e ▸ hp)
+        have hk' : ¬ k = k' := fun e => hk e.symm
+        simp [hp, hk, hk']
+    · by_cases hk : k' = k
+      · subst hk; simp [hp]
+      · by_cases h2 : p.1 = k' <;> simp [hp, hk, h2]
+
+theorem find_erase (k k' : α) (l : List (α × β)) :
+    find k' (erase k l) = if k' = k then none else find k' l := by
+  induction l with
+  | nil => simp [erase]
+  | cons p l ih =>
+    simp only [erase] at *
+    by_cases hp : p.1 = k
+    · have : decide (p.1 ≠ k) = false := by simp [hp]
+      rw [List.filter_cons_of_neg (by simp [hp]), ih, find_cons]
+      by_cases hk : k' = k
+      · simp [hk]
+      · have : ¬ p.1 = k' := fun e => hk (e ▸ hp)
+        simp [hk, this]
+    · rw [List.filter_cons_of_pos (by simp [hp]), find_cons, find_cons, ih]
+      by_cases hk : k' = k
+      · subst hk; simp [hp]
+      · simp [hk]
+
+theorem keys_filter_sublist (p : α × β → Bool) (l : List (α × β)) :
+    (keys (l.filter p)).Sublist (keys l) := (List.filter_sublist).map _
+
+theorem keys_filter_nodup (p : α × β → Bool) {l : List (α × β)} (hn : (keys l).Nodup) :
+    (keys (l.filter p)).Nodup := hn.sublist (keys_filter_sublist p l)
+
+theorem find_filter (p : α × β → Bool) {l : List (α × β)} (hn : (keys l).Nodup) (k : α) :
+    find k (l.filter p) = (find k l).bind (fun v => if p (k, v) then some v else none) := by
+  induction l with
+  | nil => simp
+  | cons q l ih =>
+    simp only [keys_cons, List.nodup_cons] at hn
+    rw [find_cons]
+    by_cases hq : q.1 = k
+    · have hqq : q = (k, q.2) := by cases q; simp_all
+      simp only [hq, if_true, Option.bind_some]
+      by_cases hp : p q = true
+      · rw [List.filter_cons_of_pos hp, find_cons]
+        rw [hqq] at hp
+        simp [hq, hp]
+      · rw [List.filter_cons_of_neg hp]
+        have hk : k ∉ keys (l.filter p) := fun hm => hn.1 (hq ▸ (keys_filter_sublist p l).subset hm)
+        rw [(find_none_iff _ _).mpr hk]
+        rw [hqq] at hp
+        simp [hp]
+    · simp only [hq, if_false]
+      by_cases hp : p q = true
+      · rw [List.filter_cons_of_pos hp, find_cons]; simp [hq, ih hn.2]
+      · rw [List.filter_cons_of_neg hp]; exact ih hn.2
+
+theorem keys_map_val (g : α × β → β) (l : List (α × β)) :
+    keys (l.map (fun p => (p.1, g p))) = keys l := by
+  induction l with
+  | nil => rfl
+  | cons p l ih => simp only [List.map_cons, keys_cons, ih]
+
+theorem find_map_val (g : α × β → β) (k : α) (l : List (α × β)) :
+    find k (l.map (fun p => (p.1, g p))) = (find k l).map (fun v => g (k, v)) := by
+  induction l with
+  | nil => rfl
+  | cons p l ih =>
+    rw [List.map_cons, find_cons, find_cons, ih]
+    by_cases hp : p.1 = k
+    · have : p = (k, p.2) := by cases p; simp_all
+      simp only [hp, if_true, Option.map_some]; rw [← this]
+    · simp [hp]
+
+end assoc
+
 /-! ### chunker -/
 
-theorem chunks_flatten (c : Nat) (hc : 0 < c) (d : List Nat) : (chunks c d).flatten = d := by
-  fun_induction chunks c d with
-  | case1 d h =>
-    rcases h with h | h
-    · omega
-    · simp [h]
-  | case2 d h ih =>
-    simp only [List.flatten_cons, ih, List.take_append_drop]
+theorem chunksGo_flatten (c : Nat) (hc : 0 < c) (fuel : Nat) (d : List Nat) (hf : d.length ≤ fuel) :
+    (chunksGo c fuel d).flatten = d := by
+  induction fuel generalizing d with
+  | zero =>
+    have : d = [] := List.length_eq_zero_iff.mp (by omega)
+    simp [chunksGo, this]
+  | succ fuel ih =>
+    rw [chunksGo]
+    by_cases hd : d = []
+    · simp [hd]
+    · have hpos : 0 < d.length := List.length_pos_iff.mpr hd
+      have hc0 : ¬ c = 0 := by omega
+      simp only [hc0, hd, or_self, if_false, List.flatten_cons]
+      rw [ih _ (by simp only [List.length_drop]; omega), List.take_append_drop]
+
+theorem chunks_flatten (c : Nat) (hc : 0 < c) (d : List Nat) : (chunks c d).flatten = d :=
+  chunksGo_flatten c hc _ d (Nat.le_refl _)
+
+/-! ### chunk table views -/
+section tbl
+variable {K : Type} [DecidableEq K] (h : List Nat → K)
+
+/-- the content hash is collision-free (on the values that occur) -/
+def HashInj : Prop := ∀ a b, h a = h b → a = b
+
+def refsOf (k : K) (tbl : List (K × CRec)) : Nat :=
+  match find k tbl with | some r => r.refs | none => 0
+
+def dataOf (k : K) (tbl : List (K × CRec)) : Option (List Nat) := (find k tbl).map (·.data)
+
+/-- every record is stored under the hash of its data -/
+def Addressed (tbl : List (K × CRec)) : Prop := ∀ p ∈ tbl, h p.2.data = p.1
+
+theorem dataOf_isSome (k : K) (tbl : List (K × CRec)) : (dataOf k tbl).isSome = (find k tbl).isSome := by
+  simp [dataOf]
+
+theorem refsOf_pos_isSome {k : K} {tbl : List (K × CRec)} (hp : 0 < refsOf k tbl) : (find k tbl).isSome := by
+  unfold refsOf at hp
+  cases hf : find k tbl with
+  | none => simp [hf] at hp
+  | some r => rfl
+
+/-! #### reader -/
+
+theorem readChunks_cons (tbl : List (K × CRec)) (k : K) (ks : List K) :
+    readChunks tbl (k :: ks) =
+      match dataOf k tbl with
+      | none => .error .chunkMissing
+      | some d => match readChunks tbl ks with
+        | .error e => .error e
+        | .ok rest => .ok (d ++ rest) := by
+  rw [readChunks, dataOf]
+  cases find k tbl <;> rfl
+
+theorem readChunks_congr {tbl tbl' : List (K × CRec)} {ks : List K}
+    (hd : ∀ k ∈ ks, dataOf k tbl' = dataOf k tbl) : readChunks tbl' ks = readChunks tbl ks := by
+  induction ks with
+  | nil => rfl
+  | cons k ks ih =>
+    rw [readChunks_cons, readChunks_cons, hd k (by simp), ih (fun k hk => hd k (by simp [hk]))]
+
+theorem readChunks_ok_present {tbl : List (K × CRec)} {ks : List K} {d : List Nat}
+    (hr : readChunks tbl ks = .ok d) : ∀ k ∈ ks, (find k tbl).isSome := by
+  induction ks generalizing d with
+  | nil => simp
+  | cons k ks ih =>
+    rw [readChunks] at hr
+    cases hf : find k tbl with
+    | none => simp [hf] at hr
+    | some r =>
+      simp only [hf] at hr
+      cases hr2 : readChunks tbl ks with
+      | error e => simp [hr2] at hr
+      | ok rest =>
+        intro k' hk'
+        rcases List.mem_cons.mp hk' with e | e
+        · subst e; simp [hf]
+        · exact ih hr2 k' e
+
+/-! #### `store_chunk` -/
+
+theorem storeChunk_keys_nodup (t : Nat) {tbl : List (K × CRec)} (d : List Nat) (hn : (keys tbl).Nodup) :
+    (keys (storeChunk h t tbl d)).Nodup := by
+  unfold storeChunk
+  cases hf : find (h d) tbl with
+  | some r => simp only [keys_modify]; exact hn
+  | none =>
+    have hk := (find_none_iff _ _).mp hf
+    simp only [keys, List.map_append, List.map_cons, List.map_nil] at *
+    exact List.nodup_append.mpr ⟨hn, by simp, by
+      intro a ha b hb; simp at hb; subst hb; intro e; exact hk (e ▸ ha)⟩
+
+theorem storeChunk_addressed (t : Nat) {tbl : List (K × CRec)} (d : List Nat) (ha : Addressed h tbl) :
+    Addressed h (storeChunk h t tbl d) := by
+  unfold storeChunk
+  cases hf : find (h d) tbl with
+  | some r =>
+    intro p hp
+    simp only [modify, List.mem_map] at hp
+    obtain ⟨q, hq, rfl⟩ := hp
+    have := ha q hq
+    by_cases e : q.1 = h d <;> simp [e, this]
+  | none =>
+    intro p hp
+    simp only [List.mem_append, List.mem_singleton] at hp
+    rcases hp with hp | hp
+    · exact ha p hp
+    · subst hp; rfl
+
+theorem find_storeChunk (t : Nat) (tbl : List (K × CRec)) (d : List Nat) (k : K) :
+    find k (storeChunk h t tbl d) =
+      match find k tbl with
+      | some r => some (if k = h d then { r with refs := r.refs + 1 } else r)
+      | none => if k = h d then some { data := d, size := d.length, refs := 1, created := t } else none := by
+  unfold storeChunk
+  cases hf : find (h d) tbl with
+  | some r0 =>
+    simp only [find_modify]
+    by_cases hk : k = h d
+    · subst hk; simp [hf]
+    · simp only [hk, if_false]; cases find k tbl <;> rfl
+  | none =>
+    simp only [find_append]
+    by_cases hk : k = h d
+    · subst hk; simp [hf, find_cons]
+    · cases hk2 : find k tbl with
+      | some r => simp [hk]
+      | none =>
+        have : ¬ h d = k := fun e => hk e.symm
+        simp [find_cons, this, hk]
+
+theorem refsOf_storeChunk (t : Nat) (tbl : List (K × CRec)) (d : List Nat) (k : K) :
+    refsOf k (storeChunk h t tbl d) = refsOf k tbl + (if h d = k then 1 else 0) := by
+  unfold refsOf
+  rw [find_storeChunk]
+  by_cases hk : k = h d
+  · subst hk; cases find (h d) tbl <;> simp
+  · have : ¬ h d = k := fun e => hk e.symm
+    cases find k tbl <;> simp [hk, this]
+
+theorem isSome_storeChunk (t : Nat) (tbl : List (K × CRec)) (d : List Nat) (k : K) :
+    (find k (storeChunk h t tbl d)).isSome = ((find k tbl).isSome || decide (k = h d)) := by
+  rw [find_storeChunk]
+  by_cases hk : k = h d
+  · subst hk; cases find (h d) tbl <;> simp
+  · cases find k tbl <;> simp [hk]
+
+theorem dataOf_storeChunk_present (t : Nat) {tbl : List (K × CRec)} (d : List Nat) {k : K}
+    (hp : (find k tbl).isSome) : dataOf k (storeChunk h t tbl d) = dataOf k tbl := by
+  unfold dataOf
+  rw [find_storeChunk]
+  cases hf : find k tbl with
+  | none => simp [hf] at hp
+  | some r => by_cases hk : k = h d <;> simp [hk]
+
+theorem dataOf_storeChunk_self (hi : HashInj h) (t : Nat) {tbl : List (K × CRec)} (d : List Nat)
+    (ha : Addressed h tbl) : dataOf (h d) (storeChunk h t tbl d) = some d := by
+  unfold dataOf
+  rw [find_storeChunk]
+  cases hf : find (h d) tbl with
+  | none => simp
+  | some r =>
+    have := ha _ (find_some_mem hf)
+    simp only [if_true, Option.map_some]
+    exact congrArg some (hi _ _ this)
+
+/-! #### a whole list of chunks -/
+
+theorem storeAll_keys_nodup (t : Nat) (cds : List (List Nat)) {tbl : List (K × CRec)} (hn : (keys tbl).Nodup) :
+    (keys (cds.foldl (storeChunk h t) tbl)).Nodup := by
+  induction cds generalizing tbl with
+  | nil => exact hn
+  | cons d cds ih => exact ih (storeChunk_keys_nodup h t d hn)
+
+theorem storeAll_addressed (t : Nat) (cds : List (List Nat)) {tbl : List (K × CRec)} (ha : Addressed h tbl) :
+    Addressed h (cds.foldl (storeChunk h t) tbl) := by
+  induction cds generalizing tbl with
+  | nil => exact ha
+  | cons d cds ih => exact ih (storeChunk_addressed h t d ha)
+
+theorem refsOf_storeAll (t : Nat) (cds : List (List Nat)) (tbl : List (K × CRec)) (k : K) :
+    refsOf k (cds.foldl (storeChunk h t) tbl) = refsOf k tbl + (cds.map h).count k := by
+  induction cds generalizing tbl with
+  | nil => simp
+  | cons d cds ih =>
+    rw [List.foldl_cons, ih, refsOf_storeChunk, List.map_cons, List.count_cons]
+    by_cases e : h d = k <;> simp [e] <;> omega
+
+theorem isSome_storeAll_mono (t : Nat) (cds : List (List Nat)) {tbl : List (K × CRec)} {k : K}
+    (hp : (find k tbl).isSome) : (find k (cds.foldl (storeChunk h t) tbl)).isSome := by
+  induction cds generalizing tbl with
+  | nil => exact hp
+  | cons d cds ih => exact ih (by rw [isSome_storeChunk]; simp [hp])
+
+theorem dataOf_storeAll_present (t : Nat) (cds : List (List Nat)) {tbl : List (K × CRec)} {k : K}
+    (hp : (find k tbl).isSome) : dataOf k (cds.foldl (storeChunk h t) tbl) = dataOf k tbl := by
+  induction cds generalizing tbl with
+  | nil => rfl
+  | cons d cds ih =>
+    rw [List.foldl_cons, ih (by rw [isSome_storeChunk]; simp [hp]), dataOf_storeChunk_present h t d hp]
+
+theorem isSome_storeAll_new (t : Nat) (cds : List (List Nat)) (tbl : List (K × CRec)) :
+    ∀ d ∈ cds, (find (h d) (cds.foldl (storeChunk h t) tbl)).isSome := by
+  induction cds generalizing tbl with
+  | nil => simp
+  | cons d0 cds ih =>
+    intro d hd
+    rcases List.mem_cons.mp hd with e | e
+    · subst e; exact isSome_storeAll_mono h t cds (by rw [isSome_storeChunk]; simp)
+    · exact ih _ d e
+
+theorem readChunks_storeAll (hi : HashInj h) (t : Nat) (cds : List (List Nat)) {tbl : List (K × CRec)}
+    (ha : Addressed h tbl) : readChunks (cds.foldl (storeChunk h t) tbl) (cds.map h) = .ok cds.flatten := by
+  induction cds generalizing tbl with
+  | nil => rfl
+  | cons d cds ih =>
+    rw [List.map_cons, readChunks_cons, List.foldl_cons]
+    have h1 : dataOf (h d) (cds.foldl (storeChunk h t) (storeChunk h t tbl d)) = some d := by
+      rw [dataOf_storeAll_present h t cds (by rw [isSome_storeChunk]; simp)]
+      exact dataOf_storeChunk_self h hi t d ha
+    rw [h1, ih (storeChunk_addressed h t d ha)]
+    rfl
+
+/-! #### `decrement_chunk_refs` -/
+
+theorem keys_decRef (tbl : List (K × CRec)) (k : K) : keys (decRef tbl k) = keys tbl := keys_modify _ _ _
+
+theorem find_decRef (tbl : List (K × CRec)) (k k' : K) :
+    find k' (decRef tbl k) = if k' = k then (find k' tbl).map (fun r => { r with refs := r.refs - 1 }) else find k' tbl :=
+  find_modify _ _ _ _
+
+theorem refsOf_decRef (tbl : List (K × CRec)) (k k' : K) :
+    refsOf k' (decRef tbl k) = if k' = k then refsOf k' tbl - 1 else refsOf k' tbl := by
+  unfold refsOf; rw [find_decRef]
+  by_cases e : k' = k
+  · simp only [e, if_true]; cases find k tbl <;> simp
+  · simp [e]
+
+theorem dataOf_decRef (tbl : List (K × CRec)) (k k' : K) : dataOf k' (decRef tbl k) = dataOf k' tbl := by
+  unfold dataOf; rw [find_decRef]
+  by_cases e : k' = k
+  · simp only [e, if_true]; cases find k tbl <;> simp
+  · simp [e]
+
+theorem addressed_decRef {tbl : List (K × CRec)} (k : K) (ha : Addressed h tbl) : Addressed h (decRef tbl k) := by
+  intro p hp
+  simp only [decRef, modify, List.mem_map] at hp
+  obtain ⟨q, hq, rfl⟩ := hp
+  have := ha q hq
+  by_cases e : q.1 = k <;> simp [e, this]
+
+theorem keys_decAll (ks : List K) (tbl : List (K × CRec)) : keys (ks.foldl decRef tbl) = keys tbl := by
+  induction ks generalizing tbl with
+  | nil => rfl
+  | cons k ks ih => rw [List.foldl_cons, ih, keys_decRef]
+
+theorem addressed_decAll (ks : List K) {tbl : List (K × CRec)} (ha : Addressed h tbl) :
+    Addressed h (ks.foldl decRef tbl) := by
+  induction ks generalizing tbl with
+  | nil => exact ha
+  | cons k ks ih => exact ih (addressed_decRef h k ha)
+
+theorem dataOf_decAll (ks : List K) (tbl : List (K × CRec)) (k' : K) :
+    dataOf k' (ks.foldl decRef tbl) = dataOf k' tbl := by
+  induction ks generalizing tbl with
+  | nil => rfl
+  | cons k ks ih => rw [List.foldl_cons, ih, dataOf_decRef]
+
+theorem refsOf_decAll (ks : List K) (tbl : List (K × CRec)) (k' : K) :
+    refsOf k' (ks.foldl decRef tbl) = refsOf k' tbl - ks.count k' := by
+  induction ks generalizing tbl with
+  | nil => simp
+  | cons k ks ih =>
+    rw [List.foldl_cons, ih, refsOf_decRef, List.count_cons]
+    by_cases e : k' = k
+    · subst e; simp; omega
+    · have : ¬ k = k' := fun x => e x.symm
+      simp [e, this]
+
+end tbl
+
+/-! ### the writer's buffer logic -/
+
+theorem splitGo_flatten (c fuel : Nat) (buf : List Nat) :
+    (splitGo c fuel buf).1.flatten ++ (splitGo c fuel buf).2 = buf := by
+  induction fuel generalizing buf with
+  | zero => simp [splitGo]
+  | succ fuel ih =>
+    rw [splitGo]
+    by_cases hc : c = 0 ∨ buf.length < c
+    · simp [hc]
+    · simp only [hc, if_false, List.flatten_cons, List.append_assoc]
+      rw [ih, List.take_append_drop]
+
+theorem splitFull_flatten (c : Nat) (buf : List Nat) :
+    (splitFull c buf).1.flatten ++ (splitFull c buf).2 = buf := splitGo_flatten c _ buf
+
+/-- chunk datas a writer with buffer `buf` stores while being fed `ps`, and what stays buffered -/
+def emit (c : Nat) : List Nat → List (List Nat) → List (List Nat) × List Nat
+  | buf, [] => ([], buf)
+  | buf, p :: ps =>
+    if p = [] then emit c buf ps
+    else ((splitFull c (buf ++ p)).1 ++ (emit c (splitFull c (buf ++ p)).2 ps).1,
+          (emit c (splitFull c (buf ++ p)).2 ps).2)
+
+/-- all chunk datas of a finished writer fed `ps` (the last one is the flushed buffer) -/
+def streamChunks (c : Nat) (ps : List (List Nat)) : List (List Nat) :=
+  (emit c [] ps).1 ++ (if (emit c [] ps).2 = [] then [] else [(emit c [] ps).2])
+
+theorem emit_flatten (c : Nat) (buf : List Nat) (ps : List (List Nat)) :
+    (emit c buf ps).1.flatten ++ (emit c buf ps).2 = buf ++ ps.flatten := by
+  induction ps generalizing buf with
+  | nil => simp [emit]
+  | cons p ps ih =>
+    rw [emit]
+    by_cases hp : p = []
+    · simp [hp, ih]
+    · simp only [hp, if_false, List.flatten_append, List.append_assoc, ih, List.flatten_cons]
+      rw [← List.append_assoc, splitFull_flatten, List.append_assoc]
+
+theorem streamChunks_flatten (c : Nat) (ps : List (List Nat)) : (streamChunks c ps).flatten = ps.flatten := by
+  have := emit_flatten c [] ps
+  unfold streamChunks
+  by_cases he : (emit c [] ps).2 = []
+  · simp only [he, if_true, List.append_nil] at *; simpa using this
+  · simp only [he, if_false, List.flatten_append, List.flatten_cons, List.flatten_nil, List.append_nil]
+    simpa using this
+
+section writer
+variable {K : Type} [DecidableEq K] (h : List Nat → K)
+
+theorem writeAll_eq (c t : Nat) (s : State K) (w : Writer K) (ps : List (List Nat)) :
+    writeAll h c t s w ps =
+      ({ s with chunks := (emit c w.buffer ps).1.foldl (storeChunk h t) s.chunks },
+       { chunks := w.chunks ++ (emit c w.buffer ps).1.map h, total := w.total + ps.flatten.length,
+         hashed := w.hashed ++ ps.flatten, buffer := (emit c w.buffer ps).2 }) := by
+  induction ps generalizing s w with
+  | nil => simp [writeAll, emit]
+  | cons p ps ih =>
+    have hstep : writeAll h c t s w (p :: ps) = writeAll h c t (wWrite h c t s w p).1 (wWrite h c t s w p).2 ps := by
+      simp [writeAll]
+    rw [hstep, ih, emit]
+    by_cases hp : p = []
+    · simp [wWrite, hp]
+    · simp only [wWrite, hp, if_false, List.foldl_append, List.map_append, List.append_assoc,
+        List.flatten_cons, List.length_append, Nat.add_assoc]
+
+theorem stream_eq (cfg : Cfg) (t : Nat) (s : State K) (ps : List (List Nat)) :
+    stream h cfg t s ps =
+      ({ chunks := (streamChunks cfg.chunkSize ps).foldl (storeChunk h t) s.chunks,
+         arts := s.arts ++ [(s.next, { chunks := (streamChunks cfg.chunkSize ps).map h,
+                                       size := ps.flatten.length, checksum := h ps.flatten })],
+         next := s.next + 1 }, s.next) := by
+  unfold stream
+  rw [writeAll_eq]
+  simp only [wFinish, Writer.new, streamChunks, List.nil_append, Nat.zero_add, List.foldl_append, List.map_append]
+  by_cases he : (emit cfg.chunkSize [] ps).2 = [] <;> simp [he]
+
+theorem abandon_eq (cfg : Cfg) (t : Nat) (s : State K) (ps : List (List Nat)) :
+    streamAbandon h cfg t s ps =
+      { s with chunks := (emit cfg.chunkSize [] ps).1.foldl (storeChunk h t) s.chunks } := by
+  unfold streamAbandon
+  rw [writeAll_eq]
+  rfl
+
+end writer
+
+/-! ### occurrences -/
+section occs
+variable {K : Type} [DecidableEq K]
+
+theorem occ_nil (k : K) : occ k ([] : List (Nat × Art K)) = 0 := rfl
+
+theorem occ_cons (k : K) (p : Nat × Art K) (arts : List (Nat × Art K)) :
+    occ k (p :: arts) = p.2.chunks.count k + occ k arts := by simp [occ]
+
+theorem occ_append (k : K) (arts arts' : List (Nat × Art K)) : occ k (arts ++ arts') = occ k arts + occ k arts' := by
+  simp [occ]
+
+theorem occ_pos_of_mem {k : K} {arts : List (Nat × Art K)} {p : Nat × Art K} (hp : p ∈ arts) (hk : k ∈ p.2.chunks) :
+    0 < occ k arts := by
+  induction arts with
+  | nil => simp at hp
+  | cons q arts ih =>
+    rw [occ_cons]
+    rcases List.mem_cons.mp hp with e | e
+    · subst e
+      have := List.count_pos_iff.mpr hk
+      omega
+    · have := ih e; omega
+
+theorem occ_erase_le {k : K} {arts : List (Nat × Art K)} {id : Nat} {a : Art K} (hf : find id arts = some a) :
+    occ k (erase id arts) + a.chunks.count k ≤ occ k arts := by
+  induction arts with
+  | nil => simp at hf
+  | cons q arts ih =>
+    rw [find_cons] at hf
+    by_cases hq : q.1 = id
+    · simp only [hq, if_true, Option.some.injEq] at hf
+      have hle : occ k (erase id arts) ≤ occ k arts := by
+        clear ih hf
+        induction arts with
+        | nil => simp [erase]
+        | cons r arts ih2 =>
+          simp only [erase] at *
+          by_cases hr : r.1 = id
+          · rw [List.filter_cons_of_neg (by simp [hr]), occ_cons]; omega
+          · rw [List.filter_cons_of_pos (by simp [hr]), occ_cons, occ_cons]; omega
+      have : erase id (q :: arts) = erase id arts := by
+        simp only [erase]; rw [List.filter_cons_of_neg (by simp [hq])]
+      rw [this, occ_cons, hf]; omega
+    · simp only [hq, if_false] at hf
+      have : erase id (q :: arts) = q :: erase id arts := by
+        simp only [erase]; rw [List.filter_cons_of_pos (by simp [hq])]
+      rw [this, occ_cons, occ_cons]
+      have := ih hf; omega
+
+theorem occ_erase_eq {k : K} {arts : List (Nat × Art K)} {id : Nat} {a : Art K} (hn : (keys arts).Nodup)
+    (hf : find id arts = some a) : occ k (erase id arts) + a.chunks.count k = occ k arts := by
+  induction arts with
+  | nil => simp at hf
+  | cons q arts ih =>
+    simp only [keys_cons, List.nodup_cons] at hn
+    rw [find_cons] at hf
+    by_cases hq : q.1 = id
+    · simp only [hq, if_true, Option.some.injEq] at hf
+      have hnot : id ∉ keys arts := hq ▸ hn.1
+      have he : erase id arts = arts := by
+        simp only [erase]
+        apply List.filter_eq_self.mpr
+        intro r hr
+        have : r.1 ∈ keys arts := List.mem_map.mpr ⟨r, hr, rfl⟩
+        have : r.1 ≠ id := fun e => hnot (e ▸ this)
+        simp [this]
+      have : erase id (q :: arts) = erase id arts := by
+        simp only [erase]; rw [List.filter_cons_of_neg (by simp [hq])]
+      rw [this, he, occ_cons, hf]; omega
+    · simp only [hq, if_false] at hf
+      have : erase id (q :: arts) = q :: erase id arts := by
+        simp only [erase]; rw [List.filter_cons_of_pos (by simp [hq])]
+      rw [this, occ_cons, occ_cons]
+      have := ih hn.2 hf; omega
+
+theorem contains_referenced (k : K) (arts : List (Nat × Art K)) :
+    (referenced arts).contains k = decide (0 < occ k arts) := by
+  induction arts with
+  | nil => simp [referenced, occ]
+  | cons q arts ih =>
+    have : referenced (q :: arts) = q.2.chunks ++ referenced arts := by simp [referenced]
+    rw [this, occ_cons]
+    have h1 : 0 < q.2.chunks.count k ↔ k ∈ q.2.chunks := List.count_pos_iff
+    by_cases hm : k ∈ q.2.chunks
+    · have := h1.mpr hm
+      simp [hm]; omega
+    · have : q.2.chunks.count k = 0 := by
+        have := (not_congr h1).mpr hm; omega
+      rw [List.contains_eq_mem] at ih ⊢
+      simp only [List.mem_append, hm, false_or, this, Nat.zero_add]
+      exact ih
+
+end occs
 
 end Neumann.Blob
